@@ -334,7 +334,7 @@ def bounds(tier):
     th = tier == "thorough"
     return {"documents": DOCS, "scenarios": SCENARIOS, "granularity": "LINE + INSTRUCTION in ruler.py",
             "bound1": "every scheduling point of the first call; " + (
-                "all ordered pairs x 6 scenarios" if th else f"pairs (scenario, doc A, doc B, granularity) {QUICK_PAIRS}"),
+                "all ordered pairs of 8 documents x 6 scenarios + the quick pairs" if th else f"pairs (scenario, doc A, doc B, granularity) {QUICK_PAIRS}"),
             "bound2": "line granularity, preemptions at and after every shared write of each call; " + (
                 "4 pairs" if th else "1 pair") + " x fresh",
             "three_threads": th, "call_kinds": ["render", "parse", "parseInline"],
@@ -351,10 +351,16 @@ def _pairs(tier):
     th = tier == "thorough"
     out = []
     if th:
+        T = [1, 4, 5, 8, 9, 10, 11, 13]
         for sc in SCENARIOS:
-            for a in range(len(DOCS)):
-                for b in range(len(DOCS)):
+            if sc == "warm-mn6":
+                out.append((sc, ("render", DOCS[12]), ("render", DOCS[12]), "line"))
+                continue
+            for a in T:
+                for b in T:
                     out.append((sc, ("render", DOCS[a]), ("render", DOCS[b]), "line" if sc == "warm" else "mixed"))
+        for sc, a, b, gran in QUICK_PAIRS:
+            out.append((sc, ("render", DOCS[a]), ("render", DOCS[b]), gran))
     else:
         for sc, a, b, gran in QUICK_PAIRS:
             out.append((sc, ("render", DOCS[a]), ("render", DOCS[b]), gran))
